@@ -20,6 +20,7 @@ META['level_text'] += ' R3: the structural clauses of the conversion pipeline th
 META["level_note"] = "Trusted: serde_json's Serializer/Deserializer for Value (arrays, strings, numbers), rustc MIR/HIR, tmfacts. Not decided: that convert(parse(x)) is the identity on alias-free input beyond the per-field agreement and the pipeline clauses shown here (same limit as C13)."
 META["technique"] += '; re-run of the conversion-pipeline clauses (C13-S2..S6)'
 META['level_text'] += ' R1 also: the saved file is opened with write+truncate (or File::create), never append: it holds exactly what was serialised now.'
+META['level_text'] += ' R5: on the path a saved (plain) mapping takes through parse_mapping_from_json, the only rejection that is not the failure of a field parser is the absorbed-modifier check, and that check is a plain membership test of each absorbed key in the trigger\'s modifier list (no state carried from one element to the next), so it cannot refuse a list the converter derived from those modifiers.'
 # --- end additions
 
 PARSE_KEY = "layout_parsing_formatting::parse_key_code"
@@ -380,6 +381,7 @@ def run(ctx):
           detail=None if not bad else bad[0][:220])
     ck.analysed["conversion_clauses_rerun"] = len(sub.obligations)
     r4_reader_lists(ctx, ck)
+    r5_cross_field_rejections(ctx, ck)
 
 
 def _absorb_src(ab):
@@ -622,3 +624,151 @@ def _is_failure(r):
     if isinstance(r, tuple) and r and r[0] == "from_residual":
         return True
     return isinstance(r, tuple) and len(r) > 2 and r[0] == "agg" and r[2] == "Err"
+
+
+# ---------------------------------------------------------------------------------------------------------------
+# R5: what the reader may refuse on the plain-mapping path
+_MEMBER_SCANS = {"find": "Some", "position": "Some", "any": True, "all": False}
+
+
+def _membership_closure(ctx, cname, negated_expected):
+    """closure |m| [!] <m is one of the captured trigger modifiers>  -> (ok, why).  The test has to be a function of `m`
+    and of the captured list alone: `list.contains(m)` or `list.iter().any(|x| x == m)` with the iterator made inside the
+    closure.  A closure that advances an iterator it captured carries state from one element to the next."""
+    if not ctx.has_body(cname):
+        return False, "closure body not found"
+    cb = ctx.body(cname)
+    if cb.loops():
+        return False, "the test closure has a loop"
+    rets = [p for p in mir.walk_function(cb) if p.outcome[0] == "return"]
+    if len(rets) != 1:
+        return False, "the test closure is not a single expression"
+    r = mir.strip(rets[0].outcome[1])
+    neg = False
+    while isinstance(r, tuple) and r and r[0] == "not":
+        neg = not neg
+        r = mir.strip(r[1])
+    if neg != negated_expected:
+        return False, "the test closure has the wrong polarity for the scan that uses it"
+    env = T("param", 1, cb.dbg.get(1, ""))
+    if not (isinstance(r, tuple) and r[0] == "call"):
+        return False, "the test closure does not end in a membership call: %s" % show(r)[:80]
+    mn = mir.method_name(r[1])
+    recv = mir.strip(r[2][0]) if r[2] else None
+    if mn == "contains":
+        ok = mir.mentions(recv, env) and any(isinstance(x, tuple) and x[0] == "param" and x[1] == 2 for x in _subterms(r[2][1]))
+        return ok, None if ok else "contains() is not applied to the captured list and the element"
+    if mn == "any":
+        if not (isinstance(recv, tuple) and recv[0] == "call" and mir.method_name(recv[1]) in ("iter", "into_iter") and mir.mentions(recv, env)):
+            return False, ("the element test advances an iterator it captured (%s): what it says about one absorbed key depends on "
+                           "the keys tested before it" % show(recv)[:60])
+        inner = mir.strip(r[2][1])
+        if isinstance(inner, tuple) and inner[0] == "closure" and ctx.has_body(inner[1]):
+            ib = ctx.body(inner[1])
+            ir = [p for p in mir.walk_function(ib) if p.outcome[0] == "return"]
+            if len(ir) == 1:
+                v = mir.strip(ir[0].outcome[1])
+                if isinstance(v, tuple) and v[0] in ("eq",) or (isinstance(v, tuple) and v[0] == "call" and mir.method_name(v[1]) == "eq"):
+                    return True, None
+        return False, "the inner test of any() is not an equality with the element"
+    return False, "unrecognised membership test %s" % mn
+
+
+def _subterms(t):
+    out = [t]
+    if isinstance(t, tuple):
+        for x in t:
+            if isinstance(x, (tuple, list)):
+                for y in (x if isinstance(x, list) else [x]):
+                    out += _subterms(y)
+    return out
+
+
+def r5_cross_field_rejections(ctx, ck):
+    fn = "layout_parsing_formatting::parse_mapping_from_json"
+    b = ctx.body(fn)
+    paths = [p for p in mir.walk_function(b) if p.outcome[0] == "return"]
+
+    def kinds(p):
+        out = []
+        for e in p.events:
+            if e.kind == "guard" and isinstance(e.a, tuple) and e.a[0] == "variantof" and isinstance(e.b, str):
+                s_ = show(e.a)
+                if "okval" in s_ and ("parse_from(" in s_ or "parse_single_or_alias_to(" in s_):
+                    out.append(e.b)
+        return out
+    plain = [p for p in paths if kinds(p) == ["Single", "Single"]]
+    oks = [p for p in plain if isinstance(p.outcome[1], tuple) and p.outcome[1][0] == "agg" and p.outcome[1][2] == "Ok"]
+    ck.floor("C15-R5", "plain-mapping-paths", len(plain), 3)
+    ck.ob("C15-R5", fn, "the-plain-mapping-path-is-found(from:Single,to:Single)", bool(oks), detail="%d paths, %d accepting" % (len(plain), len(oks)))
+    rejections = [p for p in plain if _is_failure(p.outcome[1]) and p.outcome[1][0] != "from_residual"]
+    n = 0
+    for p in rejections:
+        n += 1
+        ok, why = _absorbed_rejection(ctx, b, p)
+        ck.ob("C15-R5", fn, "a-plain-mapping-is-refused-only-when-an-absorbed-key-is-not-among-its-own-trigger-modifiers", ok, detail=why)
+    ck.analysed["plain_mapping_rejections"] = n
+
+
+def _absorbed_rejection(ctx, b, p):
+    """is this Err path of the plain-mapping branch `some element of the absorbing list is not contained in from.modifiers`?"""
+    def is_abs(t):
+        s_ = show(t)
+        return "parse_absorbing(" in s_
+
+    def is_mods(t):
+        s_ = show(t)
+        return "parse_from(" in s_ and "modifiers" in s_
+    # form 1: a loop over the absorbing list left through a failed contains()
+    exits = [e for e in p.events if e.kind == "loopexit"]
+    if exits:
+        h = exits[-1].a
+        lp = mir.walk_loop_only(b, h)
+        rej = [q for q in lp if q.outcome[0] == "after-loop" and not any(e.kind == "guard" and e.b == "None" for e in q.events)]
+        back = [q for q in lp if q.outcome[0] == "backedge"]
+
+        def tests(q):
+            out = []
+            for e in q.events:
+                if e.kind != "guard":
+                    continue
+                if isinstance(e.a, tuple) and e.a[0] == "variantof" and e.b in ("Some", "None"):
+                    if not is_abs(e.a):
+                        return None
+                    continue
+                out.append(e)
+            return out
+        ok = bool(rej) and bool(back)
+        for q, want in [(x, False) for x in rej] + [(x, True) for x in back]:
+            t_ = tests(q)
+            if t_ is None or len(t_) != 1:
+                return False, "the loop that refuses the mapping is not one membership test per absorbed key"
+            g = t_[0]
+            a = g.a
+            if isinstance(a, tuple) and a and a[0] == "in" and len(a) >= 3:
+                lst, el = a[2], a[1]           # (the canonical membership atom the walker makes of contains())
+            elif isinstance(a, tuple) and a[0] == "call" and mir.method_name(a[1]) == "contains":
+                lst, el = a[2][0], a[2][1]
+            else:
+                lst = el = None
+            if not (lst is not None and g.b == want and is_mods(lst) and is_abs(el) and "elem(" in show(el)):
+                return False, "the test in the refusing loop is not from.modifiers.contains(absorbed key): %s = %s" % (show(a)[:80], g.b)
+        return ok, None if ok else "no refusing/continuing path found in the loop"
+    # form 2: a scan of the absorbing list with a membership closure
+    gs = [e for e in p.events if e.kind == "guard"]
+    if not gs:
+        return False, "no guard"
+    g = gs[-1]
+    a = g.a
+    if isinstance(a, tuple) and a[0] == "variantof":
+        a = a[1]
+    a = mir.strip(a)
+    if isinstance(a, tuple) and a[0] == "call" and mir.method_name(a[1]) in _MEMBER_SCANS and is_abs(a[2][0]):
+        mn = mir.method_name(a[1])
+        if g.b != _MEMBER_SCANS[mn]:
+            return False, "the mapping is refused when %s(..) is %s" % (mn, g.b)
+        cl = mir.strip(a[2][1])
+        if not (isinstance(cl, tuple) and cl[0] == "closure"):
+            return False, "the scan's test is not a closure"
+        return _membership_closure(ctx, cl[1], negated_expected=(mn != "all"))
+    return False, "a refusal of a plain mapping that is neither a field parser's failure nor the absorbed-key membership test: last test %s = %s" % (show(g.a)[:80], g.b)
